@@ -8,7 +8,8 @@
    Tables (Gen/*.v) are regenerated from the repository / the interpreter on every run. *)
 From Coq Require Import List NArith Arith Bool String.
 From BS Require Import Base.Sexp Base.Types Base.Lit Base.Reader Gen.Tables Gen.Entities Gen.Stdlib Gen.T_C04
-                       Model.Attrs Model.Build Model.Adapter Spec.BuildSpec Spec.DocSpec Proofs.AdapterProofs.
+                       Model.Attrs Model.Heap Model.Edit Model.Build Model.Adapter Spec.Tree Spec.BuildSpec Spec.DocSpec
+                       Proofs.EditRep Proofs.AdapterProofs Proofs.AdapterCompose.
 Import ListNotations.
 Open Scope N_scope.
 
@@ -80,19 +81,62 @@ Theorem C04_redundant_end_ignored : forall cfg ac n a p, can_be_empty (a_b cfg) 
 Proof. exact redundant_end_ignored. Qed.
 Print Assumptions C04_redundant_end_ignored.
 
-(* ---- special strings keep their content: PARTIAL (open known finding C04-ws-special-string) ----
-   Full statement, false of the faithful model:  forall cfg s, expect cfg [DComment s] = [XStr cls_comment s]
-   (likewise CDATA, doctype, declarations, processing instructions).  What holds: the content is kept
-   unless it is empty / ASCII-whitespace-only outside a whitespace-preserving element. *)
-Theorem C04_special_content_kept_partial : forall b c s k, k <> 0 ->
-  x_pres c = true \/ all_in (c_spaces b) s = false ->
-  xflush b c [s] (Some k) = [XStr k s].
-Proof. exact special_content_kept. Qed.
-Print Assumptions C04_special_content_kept_partial.
+(* ---- the heap the model of the code builds (Model.Build.feed over the adapter's calls = Model.Adapter.parse),
+   not only the documented fold: composition with C03 (build_refines) and C01 (parse_rep, parse_consistent) ----
+   [heap_is b nodes]: as many elements as nodes, each with that parent, that payload (name / text, attributes,
+   string class, void flag) and as children exactly the nodes naming it as parent, in document order; nothing but
+   the root object left open. *)
 
-Theorem C04_ws_special_refuted : exists s, expect html_cfg [DComment s] <> [XStr cls_comment s].
-Proof. exact ws_special_refuted. Qed.
-Print Assumptions C04_ws_special_refuted.
+(* For arbitrary, malformed input — ANY recorded callback stream, any configuration — the tree equals the
+   documented fold (C03) of the event stream the adapter makes of it. *)
+Theorem C04_malformed_is_fold : forall cfg hs,
+  heap_is (parse cfg hs) (spec_run (a_b cfg) (adapted cfg hs)).
+Proof. exact malformed_is_fold. Qed.
+Print Assumptions C04_malformed_is_fold.
+
+(* For every well-formed document the heap carries exactly the tree the markup describes. *)
+Theorem C04_document_heap : forall cfg doc, wf_doc cfg doc = true ->
+  heap_is (parse cfg (hevents_of doc)) (flat (a_b cfg) (expect cfg doc)).
+Proof. exact document_heap. Qed.
+Print Assumptions C04_document_heap.
+
+(* For every callback stream (start tags not named like the root object) an element that may be empty has an
+   empty child list in the heap. *)
+Theorem C04_heap_void_childless : forall cfg hs, start_names_ok (a_b cfg) hs ->
+  forall x : nat, (x < nxt (b_st (parse cfg hs)))%nat -> p_void (b_pay (parse cfg hs) x) = true ->
+  kids (hp (b_st (parse cfg hs)) x) = [].
+Proof. exact document_heap_void_childless. Qed.
+Print Assumptions C04_heap_void_childless.
+
+(* For EVERY callback stream, malformed ones included, that heap is one well-linked tree in the sense of C01:
+   it represents (all six links of every element) a tree rooted at the document object whose pre-order is the
+   creation order, and it is a consistent state, which every history of admissible editing calls preserves. *)
+Theorem C04_document_well_linked : forall cfg hs,
+  (exists T, rid T = 0%nat /\ pre T = seq 0 (nxt (b_st (parse cfg hs))) /\ rep [(T, false)] (hp (b_st (parse cfg hs)))) /\
+  consistent (b_st (parse cfg hs)).
+Proof. exact document_well_linked. Qed.
+Print Assumptions C04_document_well_linked.
+
+(* ---- special strings keep exactly their content ----
+   Wherever a comment, CDATA section, doctype, declaration or processing instruction stands in a document
+   (any configuration, any context, any text gathered before it, empty or whitespace-only content
+   included) it becomes one string of its class with exactly the content written.  [expect] is the tree
+   C04_document_tree proves the parser builds. *)
+Theorem C04_special_content_kept : forall cfg c pend d k s, special_of d = Some (k, s) ->
+  expect_node cfg c pend d = (xflush (a_b cfg) c pend None ++ [XStr k s], []).
+Proof. exact special_content_kept. Qed.
+Print Assumptions C04_special_content_kept.
+
+Theorem C04_special_alone_kept : forall cfg d k s, special_of d = Some (k, s) -> expect cfg [d] = [XStr k s].
+Proof. exact special_alone_kept. Qed.
+Print Assumptions C04_special_alone_kept.
+
+(* the hypothesis names exactly the five kinds, with the classes of bs4.element *)
+Example C04_special_kinds : forall kw s,
+  special_of (DComment s) = Some (cls_comment, s) /\ special_of (DCdata kw s) = Some (cls_cdata, s) /\
+  special_of (DDoctype kw s) = Some (cls_doctype, s) /\ special_of (DDecl s) = Some (cls_declaration, s) /\
+  special_of (DPi s) = Some (cls_pi, s).
+Proof. intros. repeat split. Qed.
 
 (* ---- references become the characters they denote ---- *)
 
